@@ -141,6 +141,12 @@ def malformed_stream(rnd, tier, per_seed=10):
                 cases.append(('IPv6', b2s(P.ipv6(rnd, pkt, 132)), 'stray-bytes-in-chunk'))
     for jl in (65533, 65534, 65535):       # the three chunk lengths whose rounding up to a multiple of 4 leaves 16 bits
         cases.append(('SCTP', b2s(P.sctp_large(rnd, 'jumbo', jumbo_len=jl)[0]), 'large-well-formed'))
+    # DATA chunks under every payload protocol identifier of the IANA registry's assigned range (0..75) and a few above: whatever a parser
+    # does with an identifier it knows, an identifier it does not know is just a number
+    for ppid in (list(range(0, 76)) + [132, 5683, 65535, 2 ** 32 - 1] if T else [0, 1, 3, 4, 6, 17, 18, 39, 41, 46, 47, 53, 60, 61, 62, 63, 64, 132, 5683]):
+        pkt, _ = P.sctp_large(rnd, 'data-coap', ppid=ppid)
+        for stack, full in (('SCTP', pkt), ('IPv6', P.ipv6(rnd, pkt, 132)), ('UDP', P.udp(rnd, pkt, csum=lambda x: 1, dport=132))):
+            cases.append((stack, b2s(full), 'data-chunk-ppid'))
     for kind in ('params', 'data', 'sack', 'bigparam', 'jumbo', 'data-coap'):
         big, _ = P.sctp_large(rnd, kind)
         cases.append(('SCTP', b2s(big), 'large-well-formed'))
